@@ -1,6 +1,7 @@
 """C03 - splitting an aperture into segments or sub-arrays never changes the result."""
 import ast
 
+from ..resilient import run_nested as _run_nested
 from .. import nf
 from ..nf import Poly, Tup, Const, Slice, NONE, TRUE, FALSE
 from ..model import AnalysisError, dotted
@@ -215,11 +216,11 @@ def run(chk, repo, tier):
     _skip_rule(chk, repo, 'C03-p')
     from .prop_flow import per_field_shift_rule as _pfs_rule
     _pfs_rule(chk, repo, 'C03-p')
-    _c09.run(Remap(chk, {'C09-d': 'C03-p', 'C09-f': 'C03-p'}), repo, tier)
+    _run_nested(_c09, Remap(chk, {'C09-d': 'C03-p', 'C09-f': 'C03-p'}), repo, tier)
     # a cropped sub-array is transformed about its own origin floor(n/2) on each axis (plus its offset): the kernel
     # coordinate origins of the DFT
     from . import c01 as _c01
-    _c01.run_check(Remap(chk, {'C01-d': 'C03-g', 'C01-a': 'C03-g'}), repo, tier)
+    _run_nested(_c01, Remap(chk, {'C01-d': 'C03-g', 'C01-a': 'C03-g'}), repo, tier, fname='run_check')
 
     from .extra_rules import plane_slice_rule
     plane_slice_rule(chk, repo, 'C03-i')
